@@ -262,7 +262,8 @@ func (r *run) pump(s *agwtnc.Session, k agwtnc.ConnKey, pos, w, g, inBurst int) 
 		}
 		if unread > clamp(p.Script.Ahead, 0, 6) {
 			r.mu.Lock()
-			if r.readCalls != r.gateCalls || r.gateSince == 0 {
+			if r.readCalls != r.gateCalls || r.gateSince == 0 || s.InFlight() > 0 {
+				// progress, or the link is still busy delivering: not stuck
 				r.gateCalls, r.gateSince = r.readCalls, r.sim.Now()
 			}
 			stuck := r.sim.Now()-r.gateSince > r.giveUpAfter()
